@@ -176,3 +176,18 @@ def runProv {V} (depth : Nat) : St V → List (Ev V) → List (Prov V)
   | s, e :: es => provOfStep depth s e ++ runProv depth (step depth s e) es
 
 end SFV.Gather
+
+namespace SFV.Gather
+
+/-- provenance recorded by `_scatter` (`input_token_ids = get_entity_ids([token])`): every element and the size token emitted while
+    the `k`-th event is processed depend on that event's list token. Returns (tag of the emitted token, is it the size token, k). -/
+def srunProv {V} : Nat → SSt V → List (SIn V) → List (Tag × Bool × Nat)
+  | _, _, [] => []
+  | k, s, e :: es =>
+      let s' := sstep s e
+      let isRestore := match e with | .restore _ => true | _ => false
+      (if isRestore then [] else
+        ((s'.elems.drop s.elems.length).map (fun t => (t.tag, false, k)) ++ (s'.sizes.drop s.sizes.length).map (fun z => (z.1, true, k))))
+      ++ srunProv (k + 1) s' es
+
+end SFV.Gather
